@@ -12,7 +12,11 @@ Decided:
     inside the window.
  B4 decoding tables: capability iterator and enumeration decode id/next/private header and vendor/device/class fields
     at the specified bit positions.
-Not decided: "exactly the functions present, each once" (needs a loop invariant of the bus iterator).
+ B5 bus walk: one iteration of the bus iterator's loop is path-enumerated (paths end at the loop back edge or at a
+    return) and folded into a transition function over (device, function, function-present?); the transition is then
+    iterated from (0,0) over its whole finite state space: with nothing present the probes are exactly (d,f) for d in
+    0..32, f in 0..8, each once, in order, then None; with a function present at any (d,f) that same (d,f) is returned
+    and the iterator state advances exactly as in the absent case - so the functions present are each reported once.
 """
 from .common import *
 from ..paths import *
@@ -21,7 +25,7 @@ from ..mmio import *
 EXPLANATION = ("bar_info and cam_offset are loop-free: their MIR is converted to guarded traces of ConfigurationAccess reads/writes "
                "and folded against a Python model of PCI configuration space over an enumerated table of BAR kinds, sizes, slots "
                "and command values; returned values and final register state are compared with the PCI 3.0 definition.")
-FLOORS = {'bar_scenarios': 1000, 'cam_rows': 500}
+FLOORS = {'bus_iterators': 1, 'bar_scenarios': 1000, 'cam_rows': 500}
 CFGACC = 'transport::pci::bus::ConfigurationAccess'
 
 
@@ -117,6 +121,7 @@ def run(F, R):
             b1_b2(F, R, b)
     b3_cam(F, R)
     b4_decode(F, R)
+    b5_bus_walk(F, R)
 
 
 def b1_b2(F, R, b):
@@ -279,6 +284,118 @@ def b3_cam(F, R):
         R.tables += rows
         R.check(bad is None, 'B3', '%s:offsets' % b['id'], where, 'CAM/ECAM offsets match the bit layout and are injective on %d tuples' % rows,
                 'configuration-space addressing: %s' % bad)
+
+
+def b5_bus_walk(F, R):
+    its = [b for b in F.bodies.values() if F.handwritten(b) and b.get('impl_trait') == 'core::iter::Iterator' and b['name'] == 'next'
+           and 'BusDeviceIterator' in b.get('impl_self', '')]
+    R.count('bus_iterators', len(its))
+    for b in its:
+        sg = supergraph(F, b['id'])
+        where = fn_site(F, b['id'])
+        try:
+            paths = PathEnum(sg).run()
+        except PathLimit as e:
+            R.abstain('B5', b['id'], str(e), where)
+            continue
+
+        def is_state(t, fld):
+            return t[0] in ('load0',) and t[1][2] and t[1][2][-1][0] == 'f' and t[1][2][-1][1] == fld
+
+        def step(d, f, present):
+            def leaf(t):
+                if is_state(t, 'device'):
+                    return d
+                if is_state(t, 'function'):
+                    return f
+                if is_state(t, 'bus'):
+                    return 0
+                if t[0] == 'call' and 'read_word' in t[2]:
+                    off = fold_const(t[3][2]) if len(t[3]) > 2 else None
+                    if off == 0:
+                        return 0x10001af4 if present else 0xffffffff
+                    return 0x02000001 if off == 8 else 0
+                if 'log::' in fmt(t):
+                    return 0
+                raise Unfoldable(fmt(t)[:80])
+            fo = Folder(leaf)
+            hit = [p for p in paths if path_holds(fo, p)]
+            if len(hit) != 1:
+                return ('bad', '%d feasible paths' % len(hit))
+            p = hit[0]
+            if p.panicked:
+                return ('bad', 'panics (%s)' % (p.end,))
+            nd, nf = d, f
+            probes = []
+            for e in p.effects:
+                if e[0] == 'store' and e[2][2] and e[2][2][-1][0] == 'f':
+                    if e[2][2][-1][1] == 'device':
+                        nd = fo.ev(e[3])
+                    elif e[2][2][-1][1] == 'function':
+                        nf = fo.ev(e[3])
+                if e[0] == 'call' and 'read_word' in e[2]:
+                    a = e[3][1]
+                    if a[0] == 'load0' and a[1][2] and a[1][2][-1][1] == 'next':
+                        probes.append((d, f))
+                    else:
+                        probes.append(('?', fmt(a)[:60]))
+            if p.end and p.end[0] == 'loop':
+                return ('continue', nd, nf, probes, None)
+            r = p.ret
+            if r and r[0] == 'agg' and r[1].endswith('::None'):
+                return ('none', nd, nf, probes, None)
+            if r and r[0] == 'agg' and r[1].endswith('::Some'):
+                cur = r[2][0][2][0] if r[2][0][0] == 'agg' else None
+                if cur is not None and cur[0] == 'load0' and cur[1][2] and cur[1][2][-1][1] == 'next':
+                    return ('some', nd, nf, probes, (d, f))
+                return ('some', nd, nf, probes, ('?', fmt(cur)[:60] if cur else '?'))
+            return ('bad', 'unrecognised path end %s' % (p.end,))
+        bad = None
+        rows = 0
+        try:
+            # nothing present: the walk must probe every (d, f) once, in order, and end with None
+            d, f = 0, 0
+            probed = []
+            succ = {}
+            for _ in range(400):
+                st = step(d, f, 0)
+                rows += 1
+                if st[0] == 'bad':
+                    bad = 'state (device %d, function %d), nothing present: %s' % (d, f, st[1])
+                    break
+                probed += [x for x in st[3][:1]]
+                if st[0] == 'none':
+                    break
+                if st[0] != 'continue':
+                    bad = 'state (device %d, function %d): returns an item although nothing is present' % (d, f)
+                    break
+                succ[(d, f)] = (st[1], st[2])
+                d, f = st[1], st[2]
+            else:
+                bad = 'the walk does not terminate within 400 iterations'
+            want = [(dd, ff) for dd in range(32) for ff in range(8)]
+            if not bad and sorted(probed, key=str) != sorted(want, key=str):
+                missing = [x for x in want if x not in probed]
+                extra = [x for x in probed if x not in want]
+                dup = sorted(set(x for x in probed if probed.count(x) > 1))
+                bad = 'an empty bus is probed at %d addresses instead of 32x8=256: never probed %s%s%s' % (
+                    len(probed), missing[:6], (', outside the bus %s' % extra[:3]) if extra else '', (', probed twice %s' % dup[:3]) if dup else '')
+            if not bad:
+                for (dd, ff) in want:
+                    st = step(dd, ff, 1)
+                    rows += 1
+                    if st[0] != 'some' or st[4] != (dd, ff):
+                        bad = 'function present at (device %d, function %d): iterator yields %s' % (dd, ff, st[4] if st[0] == 'some' else st[0])
+                        break
+                    if (st[1], st[2]) != succ.get((dd, ff), (st[1], st[2])):
+                        bad = 'after reporting (device %d, function %d) the iterator continues at %s, but at %s when that function is absent' % (dd, ff, (st[1], st[2]), succ[(dd, ff)])
+                        break
+        except Unfoldable as e:
+            R.abstain('B5', b['id'], 'cannot fold the iterator step: %s' % e, where)
+            continue
+        R.tables += rows
+        R.check(bad is None, 'B5', '%s:walk' % b['id'], where, 'every (device 0..31, function 0..7) probed exactly once; a present function is reported as itself (%d steps folded)' % rows,
+                'bus enumeration: %s' % bad)
 
 
 def b4_decode(F, R):
